@@ -4,6 +4,7 @@ import (
 	"fmt"
 	"math/rand"
 	"sort"
+	"strings"
 
 	"github.com/openacid/slim/index"
 )
@@ -161,6 +162,18 @@ func genIndex(t *Tracer, m *Meta, tier string, seed int64) {
 		emit(keys, block, uniq(qs))
 		m.class("family:" + fam)
 		m.class(fmt.Sprintf("block:%d", block))
+	}
+	// long shared runs between branch points (steps in the upper half of the 16-bit counter)
+	for _, L := range []int{16000, 16500, 30000} {
+		common := strings.Repeat(string([]byte{byte(0x41 + r.Intn(20))}), L)
+		keys := []string{common + "1", common + "2x", common + "2y", common + "z"}
+		if r.Intn(2) == 0 {
+			keys = append([]string{"0"}, keys...)
+		}
+		for _, block := range []int{1, 2, 3} {
+			emit(keys, block, append(append([]string{}, keys...), common, common+"2", "zz"))
+		}
+		m.class("long-shared-run")
 	}
 	emit([]string{}, 1, []string{"", "a"})
 	emit([]string{"a"}, 1, []string{"", "a", "b", "a\x00"})
